@@ -37,4 +37,21 @@ theorem dynamic_roots_partial (n : Nat) (ops : List DynCompose.COp) (S : DynComp
     StrongReach S.a h.ptr ∧ ∀ j, AccessibleC S.a.ctx [] [Ptr.strong h.ptr] j → Safe S.a.ctx j :=
   C14s.stashed_survives_while_handle_partial n ops S hS h hm rs hl
 
+/-! ### Non-vacuity (the histories of Props/C14s.lean) -/
+
+open GcArena.DynReach GcArena.DynCompose in
+/-- `dynamic_roots` in the state of `C14s.gdemo` after the `finalize` callback's stash: the set
+    object 1 is reachable (root → 0 → 1), not pinned; the stashed object 3 is white while the set was
+    black — and it is `Safe`. -/
+example : Safe ((GSys.init 1).run (C14s.gdemo.take 15)).a.ctx 3 :=
+  (dynamic_roots 1 (C14s.gdemo.take 15) _ rfl ⟨0, 0, 3, 1⟩ 1 (by decide) (by decide)
+    (.temp 1 (by decide))).2.2 3 (.temp 3 (by simp))
+
+open GcArena.DynCompose in
+/-- `dynamic_roots_partial` in `C14s.afterDrop`, for the remaining handle (object 2, still white,
+    stashed into a set that was black). -/
+example : Safe C14s.afterDrop.a.ctx 2 :=
+  (dynamic_roots_partial 1 (C14s.demo.take 11) C14s.afterDrop rfl ⟨0, 1, 2, 1⟩ (by decide)
+    ⟨true, ⟨[.vacant DynRoots.nullIndex, .occupied 2 0], 0⟩⟩ (by decide)).2 2 (.temp 2 (by simp))
+
 end GcArena.C01
